@@ -197,6 +197,24 @@ def check_generic(rec, http, cls, fam, ranges, offers, spec, match):
         offers[:] = offers_before
         return
     rec.observe("chosen_none" if got is None else "chosen_offer")
+    # history of the object: one that went through pickle (a cached request object, a task queue) or the copy module
+    # negotiates like the one it was made from
+    if (len(hdr) + len(offers)) % 4 == 0:
+        import copy as _copy
+        import pickle as _pickle
+
+        for nm_, mk_ in (("pickle", lambda a_: _pickle.loads(_pickle.dumps(a_))), ("copy.copy", _copy.copy), ("copy.deepcopy", _copy.deepcopy)):
+            try:
+                twin = mk_(acc)
+            except Exception:  # noqa: BLE001 - not every Accept flavour promises to be picklable
+                rec.observe("accept_objects_not_copyable:" + nm_)
+                continue
+            rec.observe("accept_objects_copied")
+            g3 = (twin.best_match(offers), [twin.quality(o_) for o_ in offers], list(twin))
+            g0 = (got, [acc.quality(o_) for o_ in offers], list(acc))
+            if g3 != g0:
+                rec.violation(f"C17/{fam}:copy-negotiates-differently", f"{hdr!r} offers {offers!r}: the parsed object gives {g0[:2]!r}, its {nm_} twin {g3[:2]!r} (items {g3[2]!r})", case, monitor="evaluator")
+                return
     # the offers in another iterable spelling (the parameter is an Iterable of str): a tuple, a one-shot iterator, a generator
     for nm_, other in (("tuple", tuple(offers)), ("iter", iter(offers)), ("generator", (o_ for o_ in offers))):
         try:
